@@ -578,7 +578,14 @@ def gen_store_case(rng, prop, tier):
             knobs["header_tail"] = w["header_tail"] = HEADER_TAIL[:rng.choice([1, 3, 5])]
         return {"machine": "store", "world": W.clean_world(w), "ops": ops, "knobs": knobs, "state0": []}
 
-    w = W.gen_core(rng, first_base_variant=0.15, pos_coincidence=0.4)
+    trio = rng.random() < 0.18
+    if trio:
+        # a family: the pedigree path of `phase` (--ped) writes all members of a family through one writer call
+        w = W.gen_core(rng, n_samples=rng.choice([3, 3, 4]), first_base_variant=0.15, pos_coincidence=0.4,
+                       het_rate=rng.choice([0.5, 0.7, 0.9]))
+        W.make_trio(rng, w)
+    else:
+        w = W.gen_core(rng, first_base_variant=0.15, pos_coincidence=0.4)
     W.add_alt_truth(rng, w, "alt", flip_rate=rng.choice([0.2, 0.5, 0.8]))
     depth = rng.choice([2, 3, 5, 8, 12, 20, 30])
     W.gen_library(rng, w, "L0", truth="main", depth=depth)
@@ -596,6 +603,8 @@ def gen_store_case(rng, prop, tier):
         "many_sets": rng.random() < 0.08,
         "decoys": rng.random() < 0.35,
     }
+    if trio:
+        knobs["trio"] = True
     if knobs["many_sets"]:
         knobs["interleave"] = True
         knobs["prephase"] = knobs["prephase"] or rng.choice(["PS", "HP"])
@@ -656,6 +665,15 @@ def gen_store_case(rng, prop, tier):
                     op["outfmt"] = rng.choice(["vcf.gz", "bcf"])
             if len(samples) > 1 and rng.random() < 0.35:
                 op["samples"] = sorted(rng.sample(samples, rng.randrange(1, len(samples))), key=samples.index)
+            if trio and rng.random() < 0.65:
+                ped = {}
+                if rng.random() < 0.3:
+                    ped["no_genetic"] = True
+                if rng.random() < 0.3:
+                    ped["recombrate"] = rng.choice([0.01, 50, 1000])
+                if "samples" not in op and rng.random() < 0.4:
+                    ped["use_ped_samples"] = True
+                op["ped"] = ped
             if len(chroms) > 1 and rng.random() < 0.3:
                 op["chroms"] = [rng.choice(chroms)]
             ops.append(op)
@@ -740,7 +758,29 @@ class StoreRun:
         self.initial_unphased_path = None
 
     # -- whatshap invocations
-    def _phase(self, inputs, variant_file, out, tag, samples=None, chroms=None, noref=False, only_snvs=False, distrust=False, extra=None):
+    def ped_kwargs(self, op):
+        """run_whatshap arguments for a pedigree-mode operation (None: not one), and the samples it targets"""
+        if op.get("ped") is None or not self.world.get("ped_text"):
+            return None, None
+        path = os.path.join(self.dir, "family.ped")
+        if not os.path.exists(path):
+            with open(path, "w") as f:
+                f.write(self.world["ped_text"])
+        pedopt = op["ped"]
+        kw = {"ped": path}
+        if pedopt.get("no_genetic"):
+            kw["genetic_haplotyping"] = False
+        if "recombrate" in pedopt:
+            kw["recombrate"] = pedopt["recombrate"]
+        targets = None
+        if pedopt.get("use_ped_samples") and not op.get("samples"):
+            kw["use_ped_samples"] = True
+            targets = W.ped_individuals(self.world["ped_text"])
+        return kw, targets
+
+    def _phase(self, inputs, variant_file, out, tag, samples=None, chroms=None, noref=False, only_snvs=False, distrust=False, extra=None, ped=None):
+        if ped:
+            extra = dict(extra or {}, **ped)
         debug = bool((extra or {}).get("debug_logging"))
         extra = {k: v for k, v in (extra or {}).items() if k != "debug_logging"} or None
 
@@ -941,6 +981,10 @@ class StoreRun:
             return True
         tsamples = [s for s in (op.get("samples") or self.samples) if s in self.samples]
         tchroms = [c for c in (op.get("chroms") or self.chroms) if c in self.chroms]
+        pedkw, pedtargets = self.ped_kwargs(op)
+        if pedtargets is not None:
+            # --use-ped-samples: the individuals of the PED file are the targets (whatshap rejects the run if one is not in the VCF)
+            tsamples = [s for s in self.samples if s in pedtargets]
         if not tsamples or not tchroms:
             self.stats.inc("skipped_ops")
             return True
@@ -960,19 +1004,26 @@ class StoreRun:
         if op.get("outfmt", "vcf") != "vcf":
             self.stats.inc("phase_output_" + op["outfmt"])
         self.last_input = self.current
-        what = "op %d phase(lib=%s,tag=%s%s%s%s)" % (i, lib, tag, ",samples=%s" % ",".join(tsamples) if op.get("samples") else "",
-                                                      ",chroms=%s" % ",".join(tchroms) if op.get("chroms") else "",
-                                                      ",only_snvs" if op.get("only_snvs") else "")
+        what = "op %d phase(lib=%s,tag=%s%s%s%s%s)" % (i, lib, tag, ",samples=%s" % ",".join(tsamples) if op.get("samples") else "",
+                                                        ",chroms=%s" % ",".join(tchroms) if op.get("chroms") else "",
+                                                        ",only_snvs" if op.get("only_snvs") else "",
+                                                        ",ped%s" % "".join("+" + k for k in sorted(op["ped"])) if pedkw else "")
         had_phase = any((c, s) in self.tag_of for c in tchroms for s in tsamples)
         ok, res = self.guarded(what, lambda: self._phase([self.libs[lib]], self.current, out, tag,
                                                          samples=op.get("samples") and tsamples, chroms=op.get("chroms") and tchroms,
                                                          noref=op.get("noref", False), only_snvs=op.get("only_snvs", False),
-                                                         distrust=op.get("distrust", False), extra=op.get("extra")), "C09", "phase-crashed",
+                                                         distrust=op.get("distrust", False), extra=op.get("extra"), ped=pedkw), "C09", "phase-crashed",
                                rare_options=bool({k for k in (op.get("extra") or {}) if k != "debug_logging"} or op.get("distrust")))
         if not ok:
             return False
         written, touched = res
         self.stats.inc("op_phase")
+        if pedkw:
+            self.stats.inc("phase_ped")
+            for k in op["ped"]:
+                self.stats.inc("phase_ped_" + k)
+            if had_phase:
+                self.stats.inc("rephase_ped")
         if op.get("only_snvs"):
             self.stats.inc("phase_only_snvs")
         for k in (op.get("extra") or {}):
@@ -1014,6 +1065,9 @@ class StoreRun:
             return True
         tsamples = [s for s in (op.get("samples") or self.samples) if s in self.samples]
         tchroms = [c for c in (op.get("chroms") or self.chroms) if c in self.chroms]
+        pedkw, pedtargets = self.ped_kwargs(op)
+        if pedtargets is not None:
+            tsamples = [s for s in self.samples if s in pedtargets]
         if not tsamples or not tchroms:
             self.stats.inc("skipped_ops")
             return True
@@ -1029,7 +1083,7 @@ class StoreRun:
             what = "op %d twin(lib=%s) --tag=%s" % (i, lib, tag)
             ok, res = self.guarded(what, lambda: self._phase([self.libs[lib]], self.current, out, tag,
                                                              samples=op.get("samples") and tsamples, chroms=op.get("chroms") and tchroms,
-                                                             noref=op.get("noref", False), distrust=op.get("distrust", False), extra=op.get("extra")), "C09", "phase-crashed",
+                                                             noref=op.get("noref", False), distrust=op.get("distrust", False), extra=op.get("extra"), ped=pedkw), "C09", "phase-crashed",
                                    rare_options=bool(op.get("extra") or op.get("distrust")))
             if not ok:
                 return False
@@ -1040,6 +1094,8 @@ class StoreRun:
             decs[tag] = dec
             writtens[tag] = written
         self.stats.inc("op_twin")
+        if pedkw:
+            self.stats.inc("twin_ped")
         if writtens["PS"] != writtens["HP"]:
             # the two runs did not compute the same phasing (some rarely used algorithms are not repeatable from run to
             # run): that is not a question of encodings. R1-R3 have been checked for each run on its own.
